@@ -261,6 +261,8 @@ func runC02(c *eng.Ctx) {
 
 	// ---- 14. a version owns its level objects (an installed version's file lists are never edited through a newer version) ----
 	c.Rule("PROV", "kv/version.version.levels{every version owns its level objects}", func() { versionOwnsLevels(c) })
+	// ---- 15. a new table number is claimed (pending output) before its file exists, so the cleanup never sees an unclaimed file
+	c.Rule("ORDER", famT+".newTableBuilder", func() { newTableBuilderClaimsFirst(c) })
 
 	c.Observe("snapshot.Load obtains readers through cache.GetReader without recording them for release — a reference leak (readers stay open), not a safety violation")
 }
